@@ -25,11 +25,11 @@ Small(S, n) == IF Big THEN S ELSE {x \in S : Len(x) <= n}
 RefTexts ==
     {Recompose(P) : P \in
        {X \in {MkParts(s, a, p, q, f) :
-                 s \in OptSet(IF Big THEN VEqScheme ELSE {<<115>>, <<83>>}),
-                 a \in OptSet(IF Big THEN VEqRefAuth ELSE {<<>>, <<104>>, <<37, 54, 56>>, <<104, 58, 56, 48>>}),
+                 s \in OptSet({<<115>>, <<83>>}),
+                 a \in OptSet(IF Big THEN {<<>>, <<104>>, <<37, 54, 56>>, <<117, 64, 104>>, <<104, 58, 56, 48>>, <<104, 58, 48, 56, 48>>, <<104, 58>>} ELSE {<<>>, <<104>>, <<37, 54, 56>>, <<104, 58, 56, 48>>}),
                  p \in VEqRefPath,
-                 q \in OptSet(IF Big THEN VEqQuery ELSE {<<>>, <<113>>, <<37, 55, 49>>}),
-                 f \in OptSet(IF Big THEN VEqFrag ELSE {<<>>, <<102>>})} :
+                 q \in OptSet(IF Big THEN {<<>>, <<113>>, <<37, 55, 49>>, <<37, 56, 48>>} ELSE {<<>>, <<113>>, <<37, 55, 49>>}),
+                 f \in OptSet(IF Big THEN {<<>>, <<102>>, <<37, 54, 54>>} ELSE {<<>>, <<102>>})} :
           Parts(Recompose(X)) = X}}
 
 Group(ty) ==
